@@ -18,6 +18,8 @@ use varlink::verif::Point as P;
 pub enum Op {
     /// harness-spawned thread's first yield
     Start,
+    /// a thread created by the code under test has been born but has not run any of its code yet
+    Born,
     /// instrumented program point in /repo
     Probe(P),
     /// read on the server side of pipe `id`
@@ -81,7 +83,7 @@ pub enum AcceptAnswer {
 
 pub struct St {
     pub threads: Vec<Th>,
-    by_os: HashMap<ThreadId, usize>,
+    by_os: HashMap<usize, usize>,
     expected: usize,
     running: Option<usize>,
     granted: Option<usize>,
@@ -115,6 +117,10 @@ thread_local! {
 pub struct Sched(pub Arc<Inner>);
 
 static CUR: RwLock<Option<Sched>> = RwLock::new(None);
+
+fn self_key() -> usize {
+    unsafe { libc::pthread_self() as usize }
+}
 
 pub fn current() -> Option<Sched> {
     CUR.read().unwrap().clone()
@@ -175,25 +181,28 @@ impl Sched {
         };
         let s = self.clone();
         let name = name.to_string();
-        thread::Builder::new()
+        HARNESS_SPAWN.with(|c| c.set(true));
+        let h = thread::Builder::new()
             .name(name.clone())
             .spawn(move || {
                 {
                     let mut st = s.lock();
                     st.threads[slot].os = Some(thread::current().id());
-                    st.by_os.insert(thread::current().id(), slot);
+                    st.by_os.insert(self_key(), slot);
                 }
                 MY_GEN.with(|c| c.set(s.0.gen));
                 s.yield_op(Op::Start);
                 f();
                 s.exit_thread();
             })
-            .unwrap()
+            .unwrap();
+        HARNESS_SPAWN.with(|c| c.set(false));
+        h
     }
 
     fn exit_thread(&self) {
         let mut st = self.lock();
-        if let Some(me) = st.by_os.get(&thread::current().id()).copied() {
+        if let Some(me) = st.by_os.get(&self_key()).copied() {
             st.threads[me].exited = true;
             st.threads[me].pending = None;
             if st.running == Some(me) {
@@ -215,23 +224,28 @@ impl Sched {
             return;
         }
         MY_GEN.with(|c| c.set(self.0.gen));
-        let os = thread::current().id();
-        let me = match st.by_os.get(&os) {
+        let key = self_key();
+        let me = match st.by_os.get(&key) {
             Some(i) => *i,
             None => {
                 // a thread created by the code under test (pool worker) reports for the first time
                 let i = st.threads.len();
                 let name = format!("w{}", i);
-                st.threads.push(Th { name, os: Some(os), pending: None, exited: false, catches_panics: false, holding: None, is_worker: true });
-                st.by_os.insert(os, i);
+                st.threads.push(Th { name, os: None, pending: None, exited: false, catches_panics: false, holding: None, is_worker: true });
+                st.by_os.insert(key, i);
                 i
             }
         };
+        if st.threads[me].os.is_none() && op != Op::Born {
+            // std's thread handle exists from the thread's own start routine on (not yet at birth)
+            st.threads[me].os = Some(thread::current().id());
+        }
         if st.threads[me].exited {
             // a thread that panicked earlier and was written off (catch_unwind further up): let it run free
             return;
         }
-        if matches!(op, Op::Probe(P::PoolSpawned) | Op::Probe(P::ExecAfterSpawn)) {
+        if !INTERPOSE_OK.load(std::sync::atomic::Ordering::SeqCst) && matches!(op, Op::Probe(P::PoolSpawned) | Op::Probe(P::ExecAfterSpawn)) {
+            // fallback when thread creation cannot be intercepted: the new thread reports at its first probe
             st.expected += 1;
         }
         st.threads[me].pending = Some(op);
@@ -300,6 +314,95 @@ impl Sched {
     }
 }
 
+// ------------------------------------------------------------------ thread-creation interposition
+//
+// `pthread_create` is defined here, in the executable, so the statically linked std resolves to it
+// instead of libc's.  While a scheduler is installed and the caller is one of its controlled threads,
+// the new thread gets a slot (= deterministic id) reserved synchronously in the *creator's* context and
+// parks at `Op::Born` before it runs a single instruction of the code under test: thread-start latency
+// becomes an explicit scheduling choice instead of being hidden.
+
+pub static INTERPOSE_OK: std::sync::atomic::AtomicBool = std::sync::atomic::AtomicBool::new(false);
+thread_local! {
+    static HARNESS_SPAWN: std::cell::Cell<bool> = const { std::cell::Cell::new(false) };
+}
+
+type StartFn = extern "C" fn(*mut libc::c_void) -> *mut libc::c_void;
+type CreateFn = unsafe extern "C" fn(*mut libc::pthread_t, *const libc::pthread_attr_t, StartFn, *mut libc::c_void) -> libc::c_int;
+
+struct Birth {
+    start: StartFn,
+    arg: *mut libc::c_void,
+    sched: Sched,
+    slot: usize,
+}
+
+extern "C" fn trampoline(p: *mut libc::c_void) -> *mut libc::c_void {
+    let b: Box<Birth> = unsafe { Box::from_raw(p as *mut Birth) };
+    {
+        let mut st = b.sched.lock();
+        // pthread ids may be reused by later threads: the newest binding wins
+        st.by_os.insert(self_key(), b.slot);
+    }
+    MY_GEN.with(|c| c.set(b.sched.0.gen));
+    b.sched.yield_op(Op::Born);
+    let (start, arg) = (b.start, b.arg);
+    drop(b);
+    start(arg)
+}
+
+fn real_pthread_create() -> CreateFn {
+    static REAL: std::sync::OnceLock<usize> = std::sync::OnceLock::new();
+    let p = *REAL.get_or_init(|| unsafe { libc::dlsym(libc::RTLD_NEXT, b"pthread_create\0".as_ptr() as *const libc::c_char) as usize });
+    assert!(p != 0, "dlsym(pthread_create) failed");
+    unsafe { std::mem::transmute::<usize, CreateFn>(p) }
+}
+
+#[no_mangle]
+pub unsafe extern "C" fn pthread_create(t: *mut libc::pthread_t, attr: *const libc::pthread_attr_t, start: StartFn, arg: *mut libc::c_void) -> libc::c_int {
+    INTERPOSE_SEEN.store(true, std::sync::atomic::Ordering::SeqCst);
+    let real = real_pthread_create();
+    let harness = HARNESS_SPAWN.try_with(|c| c.get()).unwrap_or(true);
+    if !harness {
+        if let Some(s) = current() {
+            let g = MY_GEN.try_with(|c| c.get()).unwrap_or(0);
+            if g == s.0.gen {
+                let slot = {
+                    let mut st = s.lock();
+                    if st.free_run {
+                        usize::MAX
+                    } else {
+                        st.expected += 1;
+                        let i = st.threads.len();
+                        st.threads.push(Th { name: format!("w{}", i), os: None, pending: None, exited: false, catches_panics: false, holding: None, is_worker: true });
+                        i
+                    }
+                };
+                if slot != usize::MAX {
+                    let b = Box::new(Birth { start, arg, sched: s.clone(), slot });
+                    return real(t, attr, trampoline, Box::into_raw(b) as *mut libc::c_void);
+                }
+            }
+        }
+    }
+    real(t, attr, start, arg)
+}
+
+static INTERPOSE_SEEN: std::sync::atomic::AtomicBool = std::sync::atomic::AtomicBool::new(false);
+
+/// Find out whether std's thread creation really goes through our `pthread_create`.
+pub fn probe_interposition() -> bool {
+    // keep the symbol alive in the final link
+    std::hint::black_box(pthread_create as usize);
+    INTERPOSE_SEEN.store(false, std::sync::atomic::Ordering::SeqCst);
+    HARNESS_SPAWN.with(|c| c.set(true));
+    let _ = thread::spawn(|| {}).join();
+    HARNESS_SPAWN.with(|c| c.set(false));
+    let ok = INTERPOSE_SEEN.load(std::sync::atomic::Ordering::SeqCst);
+    INTERPOSE_OK.store(ok, std::sync::atomic::Ordering::SeqCst);
+    ok
+}
+
 /// Called from /repo's probe hook.
 pub fn probe_hook(p: P) {
     if let Some(s) = current() {
@@ -321,6 +424,7 @@ pub fn custom_point(name: &str) {
 }
 
 pub fn install_hooks() {
+    probe_interposition();
     varlink::verif::set_hook(Some(Arc::new(probe_hook)));
     varlink::verif::set_accept_hook(Some(Arc::new(|timeout: u64| {
         let s = current()?;
@@ -350,7 +454,7 @@ pub fn install_hooks() {
                     s.lock()
                 }
             };
-            if let Some(me) = st.by_os.get(&thread::current().id()).copied() {
+            if let Some(me) = st.by_os.get(&self_key()).copied() {
                 st.panics.push((me, msg));
                 if !st.threads[me].catches_panics {
                     st.threads[me].exited = true;
@@ -541,6 +645,9 @@ pub struct Exec {
     pub horizon: bool,
     pub trace: Vec<String>,
     pub panics: Vec<String>,
+    /// the scenario's threads could not be wound down (a thread of the code under test spins or is
+    /// stuck): the process must not run further executions
+    pub poisoned: bool,
 }
 
 impl Exec {
@@ -563,7 +670,7 @@ impl Exec {
 
 fn core_enabled(st: &St, tid: usize, op: &Op, world: &dyn World) -> bool {
     match op {
-        Op::Start => true,
+        Op::Start | Op::Born => true,
         Op::Read(id) => {
             let p = &st.pipes[*id];
             !p.to_server.is_empty() || p.client_closed || p.server_shutdown
@@ -576,7 +683,10 @@ fn core_enabled(st: &St, tid: usize, op: &Op, world: &dyn World) -> bool {
         Op::Accept(_) => world.thread_enabled(st, tid, op),
         Op::EnvWait(k) => st.signals.contains(k),
         Op::Probe(P::WorkerLoopTop) => !st.queue.is_empty(),
-        Op::Probe(P::DropBeforeJoin(os)) => st.threads.iter().any(|t| t.os == Some(*os) && t.exited) || !st.threads.iter().any(|t| t.os == Some(*os)),
+        Op::Probe(P::DropBeforeJoin(os)) => {
+            // the joined thread must have exited; a born-but-never-run thread has no std id yet and may be the one
+            st.threads.iter().any(|t| t.os == Some(*os) && t.exited) || (!st.threads.iter().any(|t| t.os == Some(*os)) && !st.threads.iter().any(|t| t.os.is_none() && !t.exited))
+        }
         Op::Probe(P::ClientWantLock) | Op::Custom(_) => world.thread_enabled(st, tid, op),
         Op::Probe(_) => true,
     }
@@ -611,7 +721,7 @@ pub fn run_one(build: &dyn Fn(&Sched) -> Scenario, prefix: &[usize], horizon: us
     let sched = Sched::new();
     sched.install();
     let mut sc = build(&sched);
-    let mut ex = Exec { points: vec![], violation: None, outcome: String::new(), horizon: false, trace: vec![], panics: vec![] };
+    let mut ex = Exec { points: vec![], violation: None, outcome: String::new(), horizon: false, trace: vec![], panics: vec![], poisoned: false };
     let mut fail = None;
     loop {
         let mut st = match sched.wait_quiet() {
@@ -707,12 +817,19 @@ pub fn run_one(build: &dyn Fn(&Sched) -> Scenario, prefix: &[usize], horizon: us
     }
     // wind down
     sched.release_all();
-    let deadline = Instant::now() + Duration::from_secs(20);
-    for h in sc.roots.drain(..) {
+    let deadline = Instant::now() + Duration::from_secs(8);
+    let roots: Vec<JoinHandle<()>> = sc.roots.drain(..).collect();
+    for h in roots {
         while !h.is_finished() {
             if Instant::now() > deadline {
                 Sched::uninstall();
-                return Err(Fail::Watchdog("scenario threads did not finish within 20s after release".into()));
+                if ex.violation.is_some() {
+                    // a verdict was already reached; the stuck threads are leaked and the caller stops
+                    ex.poisoned = true;
+                    std::mem::forget(sc);
+                    return Ok(ex);
+                }
+                return Err(Fail::Watchdog("scenario threads did not finish within 8s after release".into()));
             }
             thread::sleep(Duration::from_micros(50));
         }
@@ -775,6 +892,10 @@ pub fn explore(build: &dyn Fn(&Sched) -> Scenario, cfg: &ExploreCfg, on_exec: &m
             on_exec(&x, &prefix);
         }
         stats.max_points = stats.max_points.max(x.points.len());
+        if x.poisoned {
+            stats.capped = true;
+            break;
+        }
         if x.horizon {
             stats.horizon_hits += 1;
         }
